@@ -850,6 +850,17 @@ func (c *cenv) call(n *ast.CallExpr) Val {
 				cj = append(cj, tEq(e.readComp(c.post, v.World, comp), e.readComp(c.pre, v.World, comp)))
 			}
 			return termVal(boolT, sBool, tAnd(cj...))
+		case "returnedInLoop":
+			// returnedInLoop(N): this path ended with a return statement inside the body of loop N
+			nv := c.eval(n.Args[0])
+			var k int
+			fmt.Sscanf(nv.T, "%d", &k)
+			for _, o := range c.post.retInLoops {
+				if o == k {
+					return termVal(boolT, sBool, "true")
+				}
+			}
+			return termVal(boolT, sBool, "false")
 		case "errof", "first":
 			v := c.eval(n.Args[0])
 			if v.K == kTuple && len(v.Elems) > 0 {
